@@ -13,7 +13,7 @@ import numpy as np
 
 from . import refmodel
 from .refmodel import Unsupported, Skip, BINARY
-from .terms import Fn, Pred, SortKey, ScriptedRandomState, scripted_perm
+from .terms import sid, Fn, Pred, SortKey, ScriptedRandomState, scripted_perm
 
 
 # ---------------------------------------------------------------- building
@@ -24,10 +24,19 @@ class Fns:
         return Fn(name)
 
     def pred(self, m, stage):
-        return Pred(m)
+        return Pred(m, stage=stage)
 
     def sortkey(self, stage):
         return SortKey()
+
+    def filterraiser(self, ld, mod, stage):
+        FE = ld.core.FilterException
+
+        def raise_or_pass(x):
+            if sid(x) % mod == 0:
+                raise FE(x)
+            return x
+        return raise_or_pass
 
     def groupfn(self, mod, stage):
         from .terms import GroupFn
@@ -213,6 +222,8 @@ def build(ld, prog, fns=None, stage_prefix='s', hook=None):
             ds = ds.cache(B(False)) if pos else ds.cache(lazy=B(False))
         elif k == 'catch':
             ds = ds.catch()
+        elif k == 'catchfilter':
+            ds = ds.map(fns.filterraiser(ld, op[1], stage)).catch()
         elif k == 'copy':
             ds = ds.copy()
         elif k == 'freeze':
@@ -295,7 +306,8 @@ def alphabet(n, kind, small=False):
             ('cycle',), ('shuffle', 1), ('shuffle', 2), ('sort', False), ('sort', True),
             ('sort_keyless', False), ('sort_keyless', True),
             ('shard', 2, 0), ('shard', 2, 1), ('shard', 3, 1), ('split', 3, 2),
-            ('split', 1, 0), ('cache',), ('ecache',), ('catch',), ('copy',), ('freeze',),
+            ('split', 1, 0), ('cache',), ('ecache',), ('catch',), ('catchfilter', 2),
+            ('catchfilter', 3), ('copy',), ('freeze',),
             ('prefetch1', 1), ('prefetch1', 2), ('prefetcht', 2, 2), ('prefetcht', 2, 3),
             ('apply_eager', 'h'), ('apply_lazy', 'h')]
     ops += [('concat3', kind, 'method'), ('concat3', kind, 'method-list'),
